@@ -56,9 +56,11 @@ ASSUME EmitLayering
 (* with or without a line ending; the report must equal the single-file report.                 *)
 NLines == 5
 Assignments == [1..NLines -> 1..3]
-PartitionCases == {[assign |-> a, eol |-> e] : a \in Assignments, e \in [1..3 -> {"lf", "none", "crlf"}]}
+\* line endings inside and at the end of each file: LF, CRLF, bare CR (C13), or no final line ending
+PartitionCases == {[assign |-> a, eol |-> e] : a \in Assignments, e \in [1..3 -> {"lf", "none", "crlf", "cr"}]}
 EmitPartitions ==
-  \A a \in Assignments : \A e \in {<<"lf", "lf", "lf">>, <<"none", "none", "none">>, <<"none", "crlf", "lf">>, <<"crlf", "none", "none">>} :
+  \A a \in Assignments : \A e \in {<<"lf", "lf", "lf">>, <<"none", "none", "none">>, <<"none", "crlf", "lf">>, <<"crlf", "none", "none">>,
+                                      <<"cr", "cr", "cr">>, <<"cr", "none", "crlf">>} :
     PrintT(<<"CLI", ToJson([kind |-> "partition", assign |-> a, eol |-> e])>>)
 ASSUME EmitPartitions
 =============================================================================
